@@ -98,6 +98,17 @@ CHECKS['C09'] = dict(
    note='Trusted: Coq kernel + vm_compute (PrimFloat for bit-exact decisions); translator py2v; Model/Liquidation.v + Model/Futures.v (hand-written); harness/c09.py, '
         'driver.py, engine.py. The cancellation of resting orders after a forced close is the C10 close clause (trace monitors).',
    tech='Rocq proof over source-regenerated kernels + account model; correspondence; trace monitors re-decided by Coq', ref='DESIGN.md section 6 (C09)')
+CHECKS['C05'] = dict(
+   text='Machine-checked invariants of a hand-written model of Order.execute/cancel, OrdersState, Sandbox.cancel_all_orders, ClosedTrades and the engine '
+        'composites (_execute_cancel, the _reset of _check), for EVERY history of submissions, single cancels, cancel-all, executions, flushes of pending '
+        'market orders, prunings and resets and EVERY assignment of position effects (keep / close / flip): a final status never changes; execute/cancel on a '
+        'final or unknown order is the identity on the whole world (also proved on the C03/C04 account models: balances, positions, margin tables); the '
+        'orders reported as active are exactly the not-final ones; every executed order is recorded exactly once in exactly one trade. The whole registry '
+        '(statuses, storage, active list, pending list, current and closed trade order lists) is compared with the real objects after every operation; '
+        'trace monitors re-check transitions, no-effect calls, reported-active and trade records on real backtests.',
+   note='Trusted: Coq kernel + vm_compute; Model/Lifecycle.v (hand-written); harness/c05.py, driver.py, engine.py. Position effects are inputs of the model '
+        '(observed in correspondence, universally quantified in theorems). Reaction orders submitted by hooks during a flush are outside the ExecutePending step.',
+   tech='Rocq proof: invariants over all histories and all effect assignments + whole-registry correspondence + trace monitors', ref='DESIGN.md section 6 (C05)')
 NA = {}
 def main():
     props = [json.loads(l)['id'] for l in open(f'{V}/properties.jsonl')]
